@@ -23,3 +23,5 @@ def async_part(ctx):
     bubble_tv(ctx, "TestMerge", "merge", "Trace_Merge", "tv.cfg", "merge perturbed", {"n": n, "reps": 2}, silent=False, perturb=True)
     bubble_tv(ctx, "TestMapOrd", "parallel", "Trace_MapOrd", "tv.cfg", "mapstream", {"n": 2 * n}, silent=False)
     bubble_tv(ctx, "TestMapOrd", "parallel", "Trace_MapOrd", "tv.cfg", "mapstream perturbed", {"n": 2 * n}, silent=False, perturb=True)
+    from bubblecommon import async_env_part
+    async_env_part(ctx, ctx.pick(800, 12000))
